@@ -263,6 +263,10 @@ func (env *SpecEnv) lookupIdent(name string) (TV, bool) {
 			}
 		}
 	}
+	if gv := env.vc.eng.contracts.GhostVars[name]; gv != nil {
+		gty := env.resolveTypeIn(gv)
+		return TV{&VS{env.vc.famGet(env.st, "G$ghost."+name, ghostSort(gty))}, gty}, true
+	}
 	switch name {
 	case "true":
 		return TV{&VS{tTrue}, boolT}, true
@@ -842,6 +846,38 @@ func (env *SpecEnv) evalCall(e *SExpr) TV {
 				env.fail("fresh() needs an old state")
 			}
 			return TV{&VS{mkAnd(mkNeq(r, tNull), mkNot(vc.allocatedIn(env.old, r)))}, boolT}
+		case "onlyfresh":
+			// onlyfresh(except...): in every heap family that differs from the old state (except the listed
+			// targets), objects that existed in the old state are unchanged - only objects allocated since are
+			// written. Meant for loop invariants of loops that build and drop temporaries.
+			if env.old == nil {
+				env.fail("onlyfresh() needs an old state")
+			}
+			except := map[string]bool{}
+			for _, t := range env.modTargets(e.Args) {
+				except[t.key] = true
+			}
+			var cs []*Term
+			r := mkVar("of!", SRef)
+			for _, k := range sortedKeys(env.st.heap) {
+				if strings.HasPrefix(k, "$") || strings.HasPrefix(k, "P$") || except[k] {
+					continue
+				}
+				srt := vc.famSort[k]
+				if srt == nil || srt.Name != "Array" || srt.K != SRef {
+					continue
+				}
+				cur := env.st.heap[k]
+				init := env.old.heap[k]
+				if init == nil {
+					init = mkVar("H$"+k, srt)
+				}
+				if termEq(cur, init) {
+					continue
+				}
+				cs = append(cs, mkForall([]*Term{r}, mkImplies(vc.allocatedIn(env.old, r), mkEq(mkSelect(cur, r), mkSelect(init, r))), []*Term{mkSelect(cur, r)}))
+			}
+			return TV{&VS{mkAnd(cs...)}, boolT}
 		case "allocated":
 			x := env.eval(e.Args[0])
 			var r *Term
@@ -959,6 +995,8 @@ func (env *SpecEnv) evalCall(e *SExpr) TV {
 				tv := env.eval(a)
 				if s, ok := tv.V.(*VSlice); ok {
 					as = append(as, s.Base, s.Off, s.Len)
+				} else if p, ok := tv.V.(*VPtr); ok && (p.Kind == PField || p.Kind == PCell) {
+					as = append(as, p.Base) // address of an embedded struct: the enclosing object
 				} else {
 					as = append(as, env.scalar(tv))
 				}
